@@ -11,7 +11,7 @@ def showStep (rc : Int) (ed : Ed) (fnames : List Bytes) : String :=
   let bufs := ",".intercalate ((List.range ed.bufs.length).filterMap (fun i =>
     match ed.bufs.getD i none with
     | none => none
-    | some b => some s!"{i}:{b.id}:{bytesHex b.path}:{b2s (dirtyPeek b.lb)}:{b.row}:{b.lb.lines.length}:{b.mtime}:{b.lb.histU}.{b.lb.hist.length}"))
+    | some b => some s!"{i}:{b.id}:{bytesHex b.path}:{b2s (dirtyPeek b.lb)}:{b.row}:{b.lb.lines.length}:{b.mtime}:{b.lb.histU}.{b.lb.hist.length}:{bytesHex b.lb.lines.flatten}"))
   let regKeys := (List.range 128).filter (fun i => i != 59 && i != 35 && i != 94 && i != 34 &&
     (i == 0 || Ex.isAlphaC i || Ex.isDigitC i || i == 47 || i == 37 || i == 58))
   let regs := ",".intercalate (regKeys.filterMap (fun i =>
@@ -25,7 +25,7 @@ def showStep (rc : Int) (ed : Ed) (fnames : List Bytes) : String :=
   let marks := match ed.lb with
     | some lb => ".".intercalate ((lb.mark.take 27).map toString)
     | none => ""
-  s!"{rc}|{ed.xrow}|{ed.xoff}|{if ed.xquit then 1 else 0}|{ed.len}|{text}|{bytesHex ed.out}|{bytesHex ed.msg}|{bufs}|{regs}|{files}|{marks}|{ed.fired}"
+  s!"{rc}|{ed.xrow}|{ed.xoff}|{if ed.xquit then 1 else 0}|{ed.len}|{text}|{bytesHex ed.out}|{bytesHex ed.msg}|{bufs}|{regs}|{files}|{marks}|{bytesHex ed.xkwd}|{ed.fired}"
 
 def parseFiles (s : String) : List (Bytes × Option Bytes) :=
   if s == "-" then [] else
@@ -59,6 +59,8 @@ structure RunOut where
   steps : List String
   trapped : Bool
   unmodelled : Bool
+  /-- per main-loop line: (is directive, the line, the text-block lines it consumed) -/
+  items : List (Bool × Bytes × List Bytes) := []
 
 /-- run the whole script through the model -/
 def runModel (files : List (Bytes × Option Bytes)) (opens : List Bytes) (script : List Bytes) : RunOut :=
@@ -71,21 +73,23 @@ def runModel (files : List (Bytes × Option Bytes)) (opens : List Bytes) (script
   | none => { steps := ["trap"], trapped := true, unmodelled := false }
   | some (rc, ed) =>
     let first := showStep rc ed fnames
-    let rec loop : Nat → Ed → List String → RunOut
-      | 0, _, acc => { steps := acc, trapped := false, unmodelled := false }
-      | f + 1, ed, acc =>
-        if ed.xquit then { steps := acc, trapped := false, unmodelled := ed.unmodelled } else
+    let rec loop : Nat → Ed → List String → List (Bool × Bytes × List Bytes) → RunOut
+      | 0, _, acc, its => { steps := acc, trapped := false, unmodelled := false, items := its }
+      | f + 1, ed, acc, its =>
+        if ed.xquit then { steps := acc, trapped := false, unmodelled := ed.unmodelled, items := its } else
         match ed.input with
-        | [] => { steps := acc, trapped := false, unmodelled := ed.unmodelled }
+        | [] => { steps := acc, trapped := false, unmodelled := ed.unmodelled, items := its }
         | ln :: rest =>
-          if ln.take 2 == [64, 64] then loop f (directive { ed with input := rest } ln) (acc ++ ["D"])
+          if ln.take 2 == [64, 64] then loop f (directive { ed with input := rest } ln) (acc ++ ["D"]) (its ++ [(true, ln, [])])
           else
             match exStep ed with
-            | none => { steps := acc ++ ["trap"], trapped := true, unmodelled := ed.unmodelled }
-            | some (rc, ed) => loop f ed (acc ++ [showStep rc ed fnames])
-    loop (script.length + 2) { ed with input := script, out := [], msg := [] } [first]
+            | none => { steps := acc ++ ["trap"], trapped := true, unmodelled := ed.unmodelled, items := its }
+            | some (rc, ed') =>
+              let used := rest.take (rest.length - ed'.input.length)
+              loop f ed' (acc ++ [showStep rc ed' fnames]) (its ++ [(false, ln, used)])
+    loop (script.length + 2) { ed with input := script, out := [], msg := [] } [first] []
 
-def fieldNames : List String := ["rc", "xrow", "xoff", "quit", "len", "text", "out", "msg", "bufs", "regs", "files", "marks", "fired"]
+def fieldNames : List String := ["rc", "xrow", "xoff", "quit", "len", "text", "out", "msg", "bufs", "regs", "files", "marks", "kwd", "fired"]
 
 def firstDiff (impl model : List String) : List String :=
   match (List.range (max impl.length model.length)).find? (fun i => impl.getD i "" != model.getD i "") with
@@ -101,8 +105,12 @@ def judge (_mode : Nat) (kv : KV) : Verdict :=
   let files := parseFiles (kv.get "files")
   let opens := if kv.get "open" == "-" then [] else ((kv.get "open").splitOn ",").map Ex.strOf
   let script := if kv.get "script" == "-" then [] else ((kv.get "script").splitOn ",").map hexBytes
-  let impl := (kv.get "res").splitOn "/"
-  let m := runModel files opens script
+  -- the last field (how many scheduled faults fired) is coverage information, not an observable
+  let strip (s : String) : String := "|".intercalate ((s.splitOn "|").take 13)
+  let impl := ((kv.get "res").splitOn "/").map strip
+  let m0 := runModel files opens script
+  let m := { m0 with steps := m0.steps.map strip }
+  let _ := m.items
   let crashed := kv.get "crash" == "1"
   let d := if m.unmodelled then []
     else if crashed then (if m.trapped then [] else ["impl crashed but the model does not trap"])
